@@ -393,13 +393,22 @@ def _consts_of(f, cache):
     return out
 
 
+_SLICE_MEMO: Dict[int, set] = {}
+_SLICE_PIN: Dict[int, Any] = {}
+
+
 def slice_hyps(hyps, goal):
     """cone of influence: keep the hypotheses that (transitively) share an uninterpreted symbol with the goal.
     Dropping the others only strengthens the obligation, and they cannot be needed since they share no symbol."""
-    cache = {}
+    # (wave 4) the symbol sets are memoised across calls: the path conditions of one procedure are shared by hundreds of
+    # obligations (z3 terms are hash-consed, so the same conjunct has the same id); the term is pinned next to its entry so
+    # that its id cannot be reused by another term while the entry exists
+    cache = _SLICE_MEMO
     flat = []
     for h in hyps:
         flat.extend(_flatten_and(h))
+    for h in flat + [goal]:
+        _SLICE_PIN.setdefault(h.get_id(), h)
     syms = set(_consts_of(goal, cache))
     remaining = [(h, _consts_of(h, cache)) for h in flat]
     keep = []
